@@ -97,8 +97,17 @@ def body_names(sel: int) -> bool:
         return True
     sel -= N_PDG
     n = UNKNOWN_LABELS[sel]
-    got = charge_conjugate_name(n)
-    return got == f"ChargeConj({n})" or fail(f"unknown label {n!r} altered to {got!r}")
+    for pdg in (False, True):
+        got = charge_conjugate_name(n, pdg_name=pdg)
+        if got != f"ChargeConj({n})":
+            return fail(f"unknown label {n!r} altered to {got!r} (pdg_name={pdg})")
+        # the wrapped label is itself a name without a known conjugate: wrapped again, never unwrapped - whatever was asked before
+        again = charge_conjugate_name(got, pdg_name=pdg)
+        if again != f"ChargeConj({got})":
+            return fail(f"label {got!r} (no known conjugate) altered to {again!r} after {n!r} had been conjugated (pdg_name={pdg})")
+        if charge_conjugate_name(n, pdg_name=pdg) != got:
+            return fail(f"unknown label {n!r}: the answer changes when asked again")
+    return True
 
 
 N_NAMES = N_EVTGEN + N_PDG + len(UNKNOWN_LABELS)
